@@ -379,4 +379,17 @@ def c06_g(ctx: Ctx):
     return out
 
 
-RULES = [c06_a, c06_b, c06_c, c06_d, c06_e, c06_f, c06_g]
+@rule("C06-h")
+def c06_h(ctx: Ctx):
+    """Result sets handed out by index look-ups / sub-evaluations are never mutated in place; evaluator functions keep no cross-query state."""
+    from .lints import inplace_on_alias, no_memoisation
+    R = "C06-h"
+    quals = [IDX + ":_SearchIndexer._find_result", IDX + ":_SearchIndexer._find_expression", IDX + ":_find_with_index_operator", IDX + ":_SearchIndexer.find"]
+    out = inplace_on_alias(ctx, R, quals, ("_find_result", "_find_expression", "get", "find", "build_index", "_get_index", "setdefault"),
+                           "the bucket of the value index (or another operand's result) is changed, so a later condition on the same key in the same filter sees polluted data")
+    out += no_memoisation(ctx, R, [IDX + ":_SearchIndexer.build_index", "signac.project:Project._build_index"],
+                          "whether a job matches must depend only on the job's current data")
+    return out
+
+
+RULES = [c06_a, c06_b, c06_c, c06_d, c06_e, c06_f, c06_g, c06_h]
